@@ -137,6 +137,7 @@ struct St {
     prove_ms: u32,
     shared: *mut Shared,
     int_vars: Vec<Int>,
+    n_abstract: u32,
 }
 
 thread_local! {
@@ -144,6 +145,8 @@ thread_local! {
 }
 
 const N_RESERVED: usize = 9;
+/// roundings to at least this many places are abstracted (see round_dp_with_strategy)
+pub const ABSTRACT_ROUND_DP: u32 = 8;
 fn reserved() -> Vec<Val> {
     let two96 = num_traits::pow(BigInt::from(2), 96);
     let max = &two96 - BigInt::one();
@@ -204,6 +207,7 @@ fn with<R>(f: impl FnOnce(&mut St) -> R) -> R {
                 prove_ms,
                 shared,
                 int_vars: vec![],
+                n_abstract: 0,
             });
         }
         f(b.as_mut().unwrap())
@@ -315,13 +319,22 @@ pub mod sym {
 
     /// Solve `extra` (may be empty) under the path condition, preferring values on the grid k/100.
     fn solve_nice(s: &mut St, extra: &[Bool]) -> Option<Vec<(String, String)>> {
-        for grid in [100i64, 10000, 0] {
-            let f = new_solver(if grid == 0 { s.prove_ms } else { 3000 });
+        // prefer small values on a decimal grid (representable by the real Decimal and readable in replays)
+        for (grid, bound) in [(100i64, 1000i64), (10000, 1_000_000), (0, 1_000_000_000), (0, 0)] {
+            let f = new_solver(if grid == 0 && bound == 0 { s.prove_ms } else { 3000 });
             for a in &s.pc {
                 f.assert(a);
             }
             for a in extra {
                 f.assert(a);
+            }
+            if bound != 0 {
+                let b = Real::from_rational(bound, 1);
+                for (_, id) in s.names.iter() {
+                    let t = real(&s.arena[*id as usize]);
+                    f.assert(&t.le(&b));
+                    f.assert(&t.ge(&b.unary_minus()));
+                }
             }
             if grid != 0 {
                 let g = Real::from_rational(grid, 1);
@@ -741,7 +754,33 @@ impl Decimal {
     pub fn round_dp_with_strategy(&self, dp: u32, st: RoundingStrategy) -> Decimal {
         match get(*self) {
             Val::C(q) => push(Val::C(round_q(&q, dp, st))),
-            Val::S(r) => push(Val::S(round_s(&r, dp, st))),
+            Val::S(r) => {
+                if dp >= ABSTRACT_ROUND_DP {
+                    // "normalisation" roundings far below a penny: sound over-approximation by a fresh value
+                    // within the rounding error bound (exact to_int terms at 10^10 scale stall the solver)
+                    use RoundingStrategy::*;
+                    let half = matches!(
+                        st,
+                        MidpointNearestEven | MidpointAwayFromZero | MidpointTowardZero | BankersRounding | RoundHalfUp | RoundHalfDown
+                    );
+                    let ulp = Q::new(BigInt::from(if half { 1 } else { 2 }), Q::pow10(dp) * 2);
+                    let e = qreal(&ulp);
+                    let n = with(|s| {
+                        s.n_abstract += 1;
+                        s.n_abstract
+                    });
+                    let v = Real::new_const(format!("symx!round{n}"));
+                    let d = &v - &r;
+                    let c = Bool::and(&[&d.le(&e), &d.ge(&e.unary_minus())]);
+                    with(|s| {
+                        s.solver.assert(&c);
+                        s.pc.push(c.clone());
+                    });
+                    push(Val::S(v))
+                } else {
+                    push(Val::S(round_s(&r, dp, st)))
+                }
+            }
         }
     }
     pub fn round(&self) -> Decimal {
